@@ -10,7 +10,7 @@ import re
 from ..astq import body_walk, dotted, in_logging, src, walk_local, fn_calls
 from ..cfg import CFG
 from ..dataflow import ReachingDefs, walk_table
-from ..hashmodel import full_model, find_terms
+from ..hashmodel import full_model
 from ..loader import Undecided
 from ..report import Check
 from .c01 import hash_slice, is_sink_call, fn_hashers
@@ -233,12 +233,12 @@ def r3_containers(chk: Check):
     for kind in ("list", "dict"):
         if kind not in br:
             raise Undecided(f"no `{kind}` branch in HashComputer.update")
-        fors = [t for _, t in find_terms(br[kind], lambda t: t[0] == "for")]
+        fors = [it for t in br[kind] for it in t if it[0] == "loop"]
         chk.require(len(fors) == 1 and "if not is_ignored(" in fors[0][1], chk.fkey(f, f"{kind} branch filter"),
                     f"the {kind} branch of the hasher iterates `{fors[0][1] if fors else '?'}`: elements flagged as meta must be filtered out with is_ignored "
                     "(a meta sub-configuration inside a container must not change the identifier)", loc)
         if kind == "list":
-            packs = [t for _, t in find_terms(br[kind], lambda t: t[0] == "emit" and t[1][0] == "pack")]
+            packs = [it for t in br[kind] for it in t if it[0] == "emit" and it[1][0] == "pack"]
             chk.require(len(packs) == 1 and fors and packs[0][1][2] == f"len({fors[0][1]})", chk.fkey(f, "list length prefix"),
                         f"the list length prefix `{packs[0][1][2] if packs else '?'}` is not the length of exactly the iterated (filtered) sequence", loc)
     # helper predicates
